@@ -1,8 +1,39 @@
 (* C13 — Channel consumer is lossless, ordered and linearizable over its source channel.
-   Statements only; every proof is `exact` of a lemma of Proofs/Channel.v. *)
+   Statements only; every proof is `exact` of a lemma of Proofs/Channel.v or Proofs/ChannelMore.v.
+
+   Clause of the property statement                                   -> theorems below
+   -------------------------------------------------------------------------------------------------------------
+   "Every value a Channel takes from its source is returned by Get"   -> C13_taken_only_by_the_get_that_returns_it
+   "... in source order"                                              -> C13_taken_is_prefix_of_sent,
+                                                                         C13_get_returns_stream_element_at_cursor,
+                                                                         C13_gets_are_consecutive_from_cursor,
+                                                                         C13_gets_deliver_replay_then_source
+   "replayed in the same order after Rollback"                        -> C13_rollback_rewinds,
+                                                                         C13_rollback_redelivers_uncommitted_in_order,
+                                                                         C13_rollback_redelivers_whole_buffer
+   "dropped from its pending buffer only by Commit"                   -> C13_commit_drops_exactly_delivered,
+                                                                         C13_buffer_changes_only_by_get_and_commit
+   "at any quiescent point the committed values followed by Buffer()
+    are exactly the prefix of the source stream that has been taken"  -> C13_committed_then_buffer_is_taken_prefix,
+                                                                         C13_buffer_is_uncommitted_taken,
+                                                                         C13_refines_cursor_spec
+   "Concurrent Get, Commit, Rollback, Buffer and Close calls behave
+    as if executed one at a time in an order consistent with real
+    time"                                                             -> C13_concurrent_histories_linearizable,
+                                                                         C13_threads_state_is_sequential,
+                                                                         C13_get_empty_changes_nothing,
+                                                                         C13_failed_results_change_nothing
+   "A closed source never produces zero values"                       -> C13_values_are_never_invented,
+                                                                         C13_drained_source_gives_empty
+   "once Done is closed nothing more is taken from the source"        -> C13_nothing_after_done (one step),
+                                                                         C13_frozen_after_closed,
+                                                                         C13_nothing_taken_after_done_every_schedule
+   quantifier "... and context cancellations": cancellation as two
+   events (context cancelled / watcher goroutine closes)              -> C13_split_* (five theorems at the end)
+*)
 From Coq Require Import List ZArith Bool Arith.
-From BB.Model Require Import Channel.
-From BB.Proofs Require Channel.
+From BB.Model Require Import Channel ChannelThreads.
+From BB.Proofs Require Channel ChannelMore.
 Import ListNotations.
 
 (* For EVERY operation sequence (Get attempts, Commit, Rollback, Buffer, Close, context cancellation, source sends and
@@ -66,3 +97,222 @@ Theorem C13_nothing_after_done : forall s o,
   (o = OGet \/ o = OCommit -> snd (step s o) = RErr).
 Proof. exact Proofs.Channel.nothing_after_closed. Qed.
 Print Assumptions C13_nothing_after_done.
+
+(* ------------------------------------------------------------------------------------------------------------- *)
+(* Clauses stated on the implementation-level model (buffer + rollback counter, as coded)                          *)
+(* ------------------------------------------------------------------------------------------------------------- *)
+
+(* "Every value a Channel takes from its source is returned by Get": the only step that takes anything from the source
+   is a Get attempt on an open Channel with nothing awaiting replay; it takes the OLDEST queued value, returns that very
+   value and appends it to the pending buffer.  No other operation (except the owner's sends) touches the source. *)
+Theorem C13_taken_only_by_the_get_that_returns_it : forall s o,
+  let s1 := fst (step s o) in
+  (taken s1 = taken s /\ (forall v, o <> OSrcSend v) -> src s1 = src s) /\
+  (taken s1 = taken s \/
+   (o = OGet /\ exists v, snd (step s o) = RVal v /\ taken s1 = taken s ++ [v] /\ src s = v :: src s1 /\
+                          buf s1 = buf s ++ [v] /\ rb s = 0 /\ closed s = false)).
+Proof. exact Proofs.ChannelMore.taken_only_by_get. Qed.
+Print Assumptions C13_taken_only_by_the_get_that_returns_it.
+
+(* "in source order": at every point of every run, what has been taken followed by what is still queued is exactly what
+   was sent, so the k-th value taken is the k-th value sent. *)
+Theorem C13_taken_is_prefix_of_sent : forall ops : list op,
+  let s := fst (run init ops) in sent s = taken s ++ src s.
+Proof. exact Proofs.ChannelMore.taken_is_prefix_of_sent. Qed.
+Print Assumptions C13_taken_is_prefix_of_sent.
+
+(* Values delivered by any block of n Get attempts from any open state: first the entries awaiting replay, oldest
+   first, then the values queued in the source, oldest first, and nothing else (empty attempts deliver nothing). *)
+Theorem C13_gets_deliver_replay_then_source : forall n s,
+  closed s = false -> rb s <= length (buf s) ->
+  Proofs.Channel.got (snd (run s (repeat OGet n))) = firstn n (skipn (pending s) (buf s) ++ src s).
+Proof. exact Proofs.ChannelMore.gets_deliver. Qed.
+Print Assumptions C13_gets_deliver_replay_then_source.
+
+(* "replayed in the same order after Rollback": a successful Rollback changes neither the buffer nor the source, and the
+   next n Get attempts return the first n of (the whole uncommitted buffer, in order, then the source's queue). *)
+Theorem C13_rollback_redelivers_uncommitted_in_order : forall s n,
+  closed s = false -> rb s <= length (buf s) -> snd (step s ORollback) = ROk ->
+  let s1 := fst (step s ORollback) in
+  buf s1 = buf s /\ src s1 = src s /\ pending s1 = 0 /\
+  Proofs.Channel.got (snd (run s1 (repeat OGet n))) = firstn n (buf s ++ src s).
+Proof. exact Proofs.ChannelMore.rollback_redelivers. Qed.
+Print Assumptions C13_rollback_redelivers_uncommitted_in_order.
+
+(* ... in particular exactly the uncommitted values come back, each once, in the same order. *)
+Theorem C13_rollback_redelivers_whole_buffer : forall s,
+  closed s = false -> rb s <= length (buf s) -> snd (step s ORollback) = ROk ->
+  Proofs.Channel.got (snd (run (fst (step s ORollback)) (repeat OGet (length (buf s))))) = buf s.
+Proof. exact Proofs.ChannelMore.rollback_redelivers_buffer. Qed.
+Print Assumptions C13_rollback_redelivers_whole_buffer.
+
+(* "dropped from its pending buffer only by Commit" / "Commit drops exactly those": the buffer changes in two ways only:
+   a Get that takes a new value appends it; a successful Commit removes exactly the delivered entries (the `pending`
+   leading ones), which become committed, and keeps the entries awaiting replay. *)
+Theorem C13_buffer_changes_only_by_get_and_commit : forall s o,
+  let s1 := fst (step s o) in
+  (buf s1 = buf s /\ committed s1 = committed s) \/
+  (o = OGet /\ exists v, snd (step s o) = RVal v /\ buf s1 = buf s ++ [v] /\ committed s1 = committed s) \/
+  (o = OCommit /\ snd (step s o) = ROk /\ closed s = false /\ pending s <> 0 /\
+   buf s1 = skipn (pending s) (buf s) /\ committed s1 = committed s ++ firstn (pending s) (buf s) /\ rb s1 = rb s).
+Proof. exact Proofs.ChannelMore.buffer_changes. Qed.
+Print Assumptions C13_buffer_changes_only_by_get_and_commit.
+
+(* "Buffer() = the uncommitted taken values": at any point of any run Buffer() returns what has been taken minus what
+   has been committed, in order, and changes nothing. *)
+Theorem C13_buffer_is_uncommitted_taken : forall ops : list op,
+  let s := fst (run init ops) in
+  step s OBuffer = (s, RBuf (skipn (length (committed s)) (taken s))) /\
+  taken s = committed s ++ buf s.
+Proof. exact Proofs.ChannelMore.buffer_is_uncommitted_taken. Qed.
+Print Assumptions C13_buffer_is_uncommitted_taken.
+
+(* "A closed source never produces zero values": every value returned by any Get of any run was sent to the source
+   (the model's Get on an empty or closed-and-drained source answers REmpty, see the next theorem). *)
+Theorem C13_values_are_never_invented : forall (ops : list op) (v : Z),
+  In (RVal v) (snd (run init ops)) -> In v (sent (fst (run init ops))).
+Proof. exact Proofs.ChannelMore.values_are_never_invented. Qed.
+Print Assumptions C13_values_are_never_invented.
+
+(* With nothing queued and nothing to replay a Get attempt finds nothing and changes nothing, whether or not the source
+   has been closed (src_closed is not even read). *)
+Theorem C13_drained_source_gives_empty : forall s,
+  closed s = false -> rb s = 0 -> src s = [] -> step s OGet = (s, REmpty).
+Proof. exact Proofs.ChannelMore.drained_source_gives_empty. Qed.
+Print Assumptions C13_drained_source_gives_empty.
+
+(* "once Done is closed nothing more is taken", for EVERY later schedule: from a closed state, whatever operations
+   follow, the values taken, the buffer and the committed values never change, the source only grows by its owner's
+   sends, the Channel stays closed and every Get and Commit returns an error. *)
+Theorem C13_frozen_after_closed : forall (ops : list op) (s : st),
+  closed s = true ->
+  let s' := fst (run s ops) in
+  closed s' = true /\ taken s' = taken s /\ buf s' = buf s /\ committed s' = committed s /\
+  (exists extra, src s' = src s ++ extra /\ sent s' = sent s ++ extra) /\
+  Forall2 (fun o r => o = OGet \/ o = OCommit -> r = RErr) ops (snd (run s ops)).
+Proof. exact Proofs.ChannelMore.frozen_after_closed. Qed.
+Print Assumptions C13_frozen_after_closed.
+
+(* The same from the initial state: as soon as a prefix of any history leaves Done closed, no continuation takes
+   anything, and every later Get, Commit and Close returns an error. *)
+Theorem C13_nothing_taken_after_done_every_schedule : forall pre post : list op,
+  done_closed (fst (run init pre)) = true ->
+  let s := fst (run init pre) in
+  let s' := fst (run init (pre ++ post)) in
+  done_closed s' = true /\ closed s' = true /\ taken s' = taken s /\ buf s' = buf s /\ committed s' = committed s /\
+  (exists extra, src s' = src s ++ extra /\ sent s' = sent s ++ extra) /\
+  Forall2 (fun o r => o = OGet \/ o = OCommit \/ o = OClose -> r = RErr) post (snd (run s post)).
+Proof. exact Proofs.ChannelMore.nothing_taken_after_done. Qed.
+Print Assumptions C13_nothing_taken_after_done_every_schedule.
+
+(* ------------------------------------------------------------------------------------------------------------- *)
+(* Linearizability                                                                                                *)
+(* ------------------------------------------------------------------------------------------------------------- *)
+
+(* A Get attempt that finds nothing leaves the state exactly as it was, so a polling Get can be linearised at any of
+   its failed attempts (the wrapper below linearises a Get that gives up at its last attempt). *)
+Theorem C13_get_empty_changes_nothing : forall s, snd (step s OGet) = REmpty -> fst (step s OGet) = s.
+Proof. exact Proofs.ChannelMore.get_empty_stutters. Qed.
+Print Assumptions C13_get_empty_changes_nothing.
+
+(* Every call that returns an error, and every observer, changes nothing. *)
+Theorem C13_failed_results_change_nothing : forall s o,
+  match snd (step s o) with
+  | REmpty | RErr | RBuf _ => fst (step s o) = s
+  | RVal _ | ROk => True
+  end.
+Proof. exact Proofs.ChannelMore.failed_result_is_noop. Qed.
+Print Assumptions C13_failed_results_change_nothing.
+
+(* "Concurrent Get, Commit, Rollback, Buffer and Close calls behave as if executed one at a time in an order consistent
+   with real time."  Model/ChannelThreads.v: any number of threads; a call is invoked (EInv), runs critical sections
+   under the mutex (EStep; a Get polls: an attempt that finds nothing leaves the call pending unless the scheduler
+   marks it final = the caller's context is found cancelled before the next attempt), and returns (ERet); `es` is an
+   arbitrary schedule of such events for arbitrary programs (events that are not enabled are skipped); calls are named
+   (thread, sequence number); the history H records invocations and responses in real-time order.
+   For every schedule: H is well formed (a response answers an earlier invocation of the same call; a thread invokes
+   its next call after the previous one returned), and H is linearizable in the standard sense: there is a sequence L
+   of calls with results such that (1) running L's operations one at a time through the sequential `step` from `init`
+   gives exactly L's results, (2) no call occurs twice in L, (3) every call in L was invoked in H with that operation,
+   (4) every call that returned in H is in L with the operation and result it returned (pending calls may or may not
+   be), (5) if call a returned before call b was invoked then a precedes b in L.  (The witness is the order of the
+   effective critical sections.) *)
+Theorem C13_concurrent_histories_linearizable : forall es : list (ev op),
+  let H := hist (trun step chan_retry (tinit init) es) in
+  Proofs.ChannelMore.well_formed op out H /\
+  exists L : list (opid * op * out),
+    snd (run init (map lin_op L)) = map lin_res L /\
+    NoDup (map lin_id L) /\
+    (forall i o r, In (i, o, r) L -> In (HInv i o) H) /\
+    (forall i o r, In (HRet i o r) H -> In (i, o, r) L) /\
+    (forall a oa ra b ob, Proofs.ChannelMore.before (HRet a oa ra) (HInv b ob) H ->
+                          In b (map lin_id L) -> Proofs.ChannelMore.before a b (map lin_id L)).
+Proof. exact Proofs.ChannelMore.channel_linearizable. Qed.
+Print Assumptions C13_concurrent_histories_linearizable.
+
+(* The shared state the threads reach is the state the sequential execution of the witness reaches, so every theorem
+   above about `run init ops` is a theorem about the object under concurrent use. *)
+Theorem C13_threads_state_is_sequential : forall es : list (ev op),
+  let x := trun step chan_retry (tinit init) es in
+  run init (map lin_op (lin x)) = (sh x, map lin_res (lin x)).
+Proof. exact Proofs.ChannelMore.channel_threads_state. Qed.
+Print Assumptions C13_threads_state_is_sequential.
+
+(* ------------------------------------------------------------------------------------------------------------- *)
+(* Context cancellation as two events (Model/ChannelThreads.v: XCtxCancel, then the watcher's XWatcherClose)      *)
+(* ------------------------------------------------------------------------------------------------------------- *)
+
+(* For every interleaving of context cancellation, the watcher's Close and all other operations: the representation
+   invariant (nothing lost, duplicated or reordered), Done closed only if the context is cancelled, the watcher finished
+   only if Done is closed. *)
+Theorem C13_split_invariant_every_interleaving : forall xops : list xop,
+  let x := fst (xrun xinit xops) in
+  Proofs.Channel.Inv (base x) /\ (once (base x) = true -> closed (base x) = true) /\
+  (wdone x = true -> once (base x) = true).
+Proof. exact Proofs.ChannelMore.xrun_inv_init. Qed.
+Print Assumptions C13_split_invariant_every_interleaving.
+
+(* Every schedule of the split machine against its atomic reading (XCtxCancel read as OCancel, the watcher's Close
+   dropped): same final state except that the atomic model has Done closed as soon as the context is cancelled, and the
+   same results position by position except that an explicit Close may return nil where the atomic model says "already
+   closed" (C12_channel_split_step_vs_atomic: exactly the Closes that fall between the cancellation and the watcher's
+   Close).  So every result of Get, Commit, Rollback, Buffer and of the final drain is the one the atomic model and
+   hence (C13_refines_cursor_spec) the cursor specification gives. *)
+Theorem C13_split_agrees_with_atomic : forall xops : list xop,
+  fst (run init (collapse xops)) = Proofs.ChannelMore.atomic_view (base (fst (xrun xinit xops))) /\
+  Proofs.ChannelMore.agree (collapse xops) (visible xops (snd (xrun xinit xops))) (snd (run init (collapse xops))).
+Proof. exact Proofs.ChannelMore.split_vs_atomic_init. Qed.
+Print Assumptions C13_split_agrees_with_atomic.
+
+(* Nothing is taken from the moment the CONTEXT is cancelled (which is before Done is closed), under every later
+   interleaving; every Get and Commit fails. *)
+Theorem C13_split_frozen_after_cancel : forall (xops : list xop) (x : xst),
+  closed (base x) = true ->
+  let s := base x in
+  let s' := base (fst (xrun x xops)) in
+  closed s' = true /\ taken s' = taken s /\ buf s' = buf s /\ committed s' = committed s /\
+  (exists extra, src s' = src s ++ extra /\ sent s' = sent s ++ extra) /\
+  Forall2 (fun xo r => xo = XOp OGet \/ xo = XOp OCommit -> r = RErr) xops (snd (xrun x xops)).
+Proof. exact Proofs.ChannelMore.x_frozen_after_cancel. Qed.
+Print Assumptions C13_split_frozen_after_cancel.
+
+(* "once Done is closed nothing more is taken": Done closed implies context cancelled in every reachable state. *)
+Theorem C13_split_done_implies_cancelled : forall xops : list xop,
+  done_closed (base (fst (xrun xinit xops))) = true -> closed (base (fst (xrun xinit xops))) = true.
+Proof. exact Proofs.ChannelMore.x_done_implies_cancelled. Qed.
+Print Assumptions C13_split_done_implies_cancelled.
+
+(* Linearizability with the cancellation and the watcher goroutine as threads of their own (the watcher's call stays
+   pending until the context is cancelled): same statement as C13_concurrent_histories_linearizable, w.r.t. `xstep`. *)
+Theorem C13_split_concurrent_histories_linearizable : forall es : list (ev xop),
+  let H := hist (trun xstep xchan_retry (tinit xinit) es) in
+  Proofs.ChannelMore.well_formed xop out H /\
+  exists L : list (opid * xop * out),
+    snd (xrun xinit (map lin_op L)) = map lin_res L /\
+    NoDup (map lin_id L) /\
+    (forall i o r, In (i, o, r) L -> In (HInv i o) H) /\
+    (forall i o r, In (HRet i o r) H -> In (i, o, r) L) /\
+    (forall a oa ra b ob, Proofs.ChannelMore.before (HRet a oa ra) (HInv b ob) H ->
+                          In b (map lin_id L) -> Proofs.ChannelMore.before a b (map lin_id L)).
+Proof. exact Proofs.ChannelMore.xchannel_linearizable. Qed.
+Print Assumptions C13_split_concurrent_histories_linearizable.
